@@ -345,4 +345,63 @@ def Ownership.isShared : Ownership → Bool
   | .fresh => false
   | .shared => true
 
+/-! ### storage type of the reference state
+
+A model may keep its state in arrays of any NumPy type (`np.array([1, 0])` is int64, `np.zeros(n,
+dtype=np.float32)`, a Python list of ints …).  `GenericModel.unflattenX` (268-279) builds the state
+handed to the callbacks from SLICES of the flat vector — `X_flat[n]` for a scalar item,
+`np.reshape(X_flat[n:n+arrLen], shape)` for an array item — so the reference state contributes its
+structure and shapes only; its storage type is never consulted and the values of the flat vector
+(a float64 array as soon as one step was taken: `x + dxdt*dt`) arrive unchanged. -/
+
+inductive DType where
+  | f64 | f32 | f16 | i64 | i32
+  deriving Repr, DecidableEq
+
+/-- the conversions `ndarray.astype` performs on a double -/
+structure Casts (α : Type) where
+  toF32 : α → α
+  toF16 : α → α
+  trunc : α → α      -- integer types: toward zero
+
+def DType.cast (cs : Casts α) : DType → α → α
+  | .f64 => id
+  | .f32 => cs.toF32
+  | .f16 => cs.toF16
+  | .i64 => cs.trunc
+  | .i32 => cs.trunc
+
+/-- a reference state whose items carry the storage type the model chose -/
+abbrev TState (α : Type) := List (DType × Item α)
+
+def TState.items (X : TState α) : List (Item α) := X.map Prod.snd
+
+/-- GenericModel.unflattenX with a typed reference: the type is not read -/
+def unflattenTyped (flat : List α) (X : TState α) : Option (List (Item α)) := unflatten flat X.items
+
+/-- NOT the code: array items cast back to the storage type of the reference array
+(`np.reshape(...).astype(ref.dtype)`); scalar items stay slices -/
+def unflattenCast (cs : Casts α) : List α → TState α → Option (List (Item α))
+  | _, [] => some []
+  | flat, (_, .scalar _) :: r =>
+    match flat with
+    | [] => none
+    | x :: fs => (unflattenCast cs fs r).map (fun t => Item.scalar x :: t)
+  | flat, (ty, .arr sh _) :: r =>
+    if flat.length < prodL sh then none
+    else (unflattenCast cs (flat.drop (prodL sh)) r).map
+      (fun t => Item.arr sh ((flat.take (prodL sh)).map (ty.cast cs)) :: t)
+
+/-- what one trip iterator → model → iterator does to the values of a flat vector:
+`flattenX(unflattenX(v, X0))` (a vector that is too short is handed on: the error branch is C05's) -/
+def deliver (X : TState α) (v : List α) : List α :=
+  match unflattenTyped v X with
+  | some Y => flatten Y
+  | none => v
+
+def deliverCast (cs : Casts α) (X : TState α) (v : List α) : List α :=
+  match unflattenCast cs v X with
+  | some Y => flatten Y
+  | none => v
+
 end KawinV.Flatten
